@@ -25,7 +25,10 @@ echo "== demo with change"
 rm -f $WT/$rel
 for id in "$@"; do
   echo "== check $id against the changed tree"
+  cp evidence/$id.json /tmp/evidence_$id.keep 2>/dev/null
   VERIF_REPO=$WT ./check $id 2>&1 | grep -a -E "^(OK|VIOLATION|INCONCLUSIVE|KNOWN)" | cut -c1-260 | tee $OUT/check_$id.log
+  cp evidence/$id.json $OUT/evidence_$id.json 2>/dev/null   # what the check observed on the changed tree
+  [ -f /tmp/evidence_$id.keep ] && mv /tmp/evidence_$id.keep evidence/$id.json   # evidence/ describes the unchanged tree only
 done
 find /verif/replays -name '*.json' -newer $OUT/patch.diff -delete 2>/dev/null
 git -C $WT checkout -q -- . ; git -C $WT clean -fdq
